@@ -87,8 +87,13 @@ int32_t psEccGenSharedSecret(psPool_t *pool,
         }
     }
 
-    /* make new point */
-    result = eccNewPoint(pool, (private_key->k.used * 2) + 1);
+    /* make new point. Size it by the field, never by the magnitude of the
+       private scalar: a scalar with few significant digits would otherwise
+       give a result point that is too small for the field arithmetic in
+       eccMulmod()/eccMap(), which then write past the end of it. */
+    result = eccNewPoint(pool,
+            (((private_key->curve->size + sizeof(pstm_digit) - 1) /
+              sizeof(pstm_digit)) * 2) + 1);
     if (result == NULL)
     {
         return PS_MEM_FAIL;
